@@ -150,24 +150,24 @@ def adjust_moisture_content(retentate, permeate, moisture_content, ID=None, stri
         MW = 18.01528
         retentate_water = retentate.imol[ID]
         dry_mass = F_mass - MW * retentate_water
-        key = ('l', ID) if isinstance(retentate, tmo.MultiStream) else ID
-        retentate.imol[key] = water = (dry_mass * mc/(1-mc)) / MW    
-        key = ('l', ID) if isinstance(retentate, tmo.MultiStream) else ID
-        permeate.imol[key] -= water - retentate_water
+        rkey = ('l', ID) if isinstance(retentate, tmo.MultiStream) else ID
+        retentate.imol[rkey] = water = (dry_mass * mc/(1-mc)) / MW    
+        pkey = ('l', ID) if isinstance(permeate, tmo.MultiStream) else ID
+        permeate.imol[pkey] -= water - retentate_water
     else:
         retentate_moisture = retentate.imass[ID]
         dry_mass = F_mass - retentate_moisture
-        key = ('l', ID) if isinstance(retentate, tmo.MultiStream) else ID
-        retentate.imass[key] = moisture = dry_mass * mc/(1-mc)
-        key = ('l', ID) if isinstance(retentate, tmo.MultiStream) else ID
-        permeate.imass[key] -= moisture - retentate_moisture
-    if permeate.imol[key] < 0:
+        rkey = ('l', ID) if isinstance(retentate, tmo.MultiStream) else ID
+        retentate.imass[rkey] = moisture = dry_mass * mc/(1-mc)
+        pkey = ('l', ID) if isinstance(permeate, tmo.MultiStream) else ID
+        permeate.imass[pkey] -= moisture - retentate_moisture
+    if permeate.imol[pkey] < 0:
         if strict is None: strict = True
         if strict:
             raise InfeasibleRegion(f'not enough {ID}; permeate moisture content')
         else:
-            retentate.imol[key] += permeate.imol[key]
-            permeate.imol[key] = 0.
+            retentate.imol[rkey] += permeate.imol[pkey]
+            permeate.imol[pkey] = 0.
 
 def mix_and_split(ins, top, bottom, split):
     """
